@@ -2,7 +2,10 @@
 // for every method of runtime.TempVM (and for NewTempVM) which request-local
 // definition maps it assigns, what it assigns / deletes through vm.Base, which
 // methods of the base VM it calls, which of its own methods it calls, and
-// whether it autoloads with its own parser. go/ast only; nothing is executed.
+// whether it autoloads with its own parser; how it uses the base's parser, which parser
+// calls it makes, in which context it evaluates a program, whether it assigns vm.parser;
+// and for every method of runtime.VM whether it parses / autoloads with the base-bound
+// parser (vm.parser) and which of its own methods it calls. go/ast only; nothing is executed.
 package main
 
 import (
@@ -24,10 +27,22 @@ type fact struct {
 	selfCalls   map[string]bool
 	ownLoader   bool
 	shape       string
+	baseParser  map[string]bool // how vm.Base.parser is used: "PrepareParse" (handed to vm.PrepareParse) | "other"
+	parses      map[string]bool // X.Parse…(…) calls on a parser value
+	evalCtx     map[string]bool // context of X.GetValue(ctx): "self.CreateContext" | "param" | "base.CreateContext" | "other"
+	setsParser  bool            // assigns vm.parser
 }
 
 func newFact(m string) *fact {
-	return &fact{method: m, writesLocal: map[string]bool{}, writesBase: map[string]bool{}, baseCalls: map[string]bool{}, selfCalls: map[string]bool{}}
+	return &fact{method: m, writesLocal: map[string]bool{}, writesBase: map[string]bool{}, baseCalls: map[string]bool{}, selfCalls: map[string]bool{},
+		baseParser: map[string]bool{}, parses: map[string]bool{}, evalCtx: map[string]bool{}}
+}
+
+// vmFact: one method of runtime.VM (the base)
+type vmFact struct {
+	method    string
+	ownParser bool // parses / autoloads with vm.parser: vm.parser.Clone(), vm.parser.Parse…(…), vm.parser handed to a call
+	selfCalls map[string]bool
 }
 
 func (f *fact) changed(format string, a ...any) {
@@ -68,6 +83,9 @@ func path(e ast.Expr) string {
 
 func (f *fact) target(e ast.Expr, recv string) {
 	p := path(e)
+	if p == recv+".parser" {
+		f.setsParser = true
+	}
 	if strings.HasPrefix(p, recv+".Base.") || p == recv+".Base" {
 		f.writesBase[p] = true
 		return
@@ -89,6 +107,14 @@ func analyse(fd *ast.FuncDecl) *fact {
 	if fd.Body == nil {
 		f.changed("method %s has no body", fd.Name.Name)
 		return f
+	}
+	params := map[string]bool{}
+	if fd.Type.Params != nil {
+		for _, fl := range fd.Type.Params.List {
+			for _, n := range fl.Names {
+				params[n.Name] = true
+			}
+		}
 	}
 	// parents, to judge how vm.Base is used
 	parent := map[ast.Node]ast.Node{}
@@ -139,6 +165,14 @@ func analyse(fd *ast.FuncDecl) *fact {
 			case isIdent(sel.X, recv):
 				f.selfCalls[sel.Sel.Name] = true
 			}
+			// parsing: X.Parse…(…) on a parser value (not a method of the VMs themselves)
+			if strings.HasPrefix(sel.Sel.Name, "Parse") && !isIdent(sel.X, recv) && !isBase(sel.X, recv) {
+				f.parses[sel.Sel.Name] = true
+			}
+			// evaluating: X.GetValue(ctx)
+			if sel.Sel.Name == "GetValue" && len(t.Args) == 1 {
+				f.evalCtx[ctxKind(t.Args[0], recv, params)] = true
+			}
 			// binding a parser clone / a context to the TempVM itself: X.SetVM(vm)
 			if sel.Sel.Name == "SetVM" && len(t.Args) == 1 && isIdent(t.Args[0], recv) {
 				f.selfCalls["SetVM(self)"] = true
@@ -164,6 +198,19 @@ func analyse(fd *ast.FuncDecl) *fact {
 				return true
 			}
 			if p.Sel.Name == "parser" {
+				// the base's parser may only be handed to vm.PrepareParse (which clones it and
+				// binds the clone to the TempVM)
+				how := "other"
+				if call, ok := parent[p].(*ast.CallExpr); ok {
+					if cs, ok := call.Fun.(*ast.SelectorExpr); ok && cs.Sel.Name == "PrepareParse" && isIdent(cs.X, recv) {
+						for _, a := range call.Args {
+							if a == ast.Expr(p) {
+								how = "PrepareParse"
+							}
+						}
+					}
+				}
+				f.baseParser[how] = true
 				if _, isAssign := parent[p].(*ast.AssignStmt); !isAssign {
 					return true
 				}
@@ -176,6 +223,76 @@ func analyse(fd *ast.FuncDecl) *fact {
 				}
 			}
 			f.changed("%s: field vm.Base.%s is accessed directly", fd.Name.Name, p.Sel.Name)
+		}
+		return true
+	})
+	return f
+}
+
+// ctxKind classifies the context a program is evaluated in
+func ctxKind(e ast.Expr, recv string, params map[string]bool) string {
+	switch t := e.(type) {
+	case *ast.Ident:
+		if params[t.Name] {
+			return "param"
+		}
+	case *ast.CallExpr:
+		if sel, ok := t.Fun.(*ast.SelectorExpr); ok && sel.Sel.Name == "CreateContext" {
+			if isIdent(sel.X, recv) {
+				return "self.CreateContext"
+			}
+			if isBase(sel.X, recv) {
+				return "base.CreateContext"
+			}
+		}
+	}
+	return "other"
+}
+
+// isRecvParser: <recv>.parser
+func isRecvParser(e ast.Expr, recv string) bool {
+	s, ok := e.(*ast.SelectorExpr)
+	return ok && s.Sel.Name == "parser" && isIdent(s.X, recv)
+}
+
+// mentionsRecvParser: the expression is, or clones, <recv>.parser
+func mentionsRecvParser(e ast.Expr, recv string) bool {
+	found := false
+	ast.Inspect(e, func(n ast.Node) bool {
+		if x, ok := n.(ast.Expr); ok && isRecvParser(x, recv) {
+			found = true
+		}
+		return !found
+	})
+	return found
+}
+
+// analyseVM: one method of runtime.VM
+func analyseVM(fd *ast.FuncDecl) *vmFact {
+	f := &vmFact{method: fd.Name.Name, selfCalls: map[string]bool{}}
+	if fd.Recv == nil || len(fd.Recv.List) != 1 || len(fd.Recv.List[0].Names) != 1 || fd.Body == nil {
+		return f
+	}
+	recv := fd.Recv.List[0].Names[0].Name
+	ast.Inspect(fd.Body, func(n ast.Node) bool {
+		call, ok := n.(*ast.CallExpr)
+		if !ok {
+			return true
+		}
+		if sel, ok := call.Fun.(*ast.SelectorExpr); ok {
+			if isIdent(sel.X, recv) {
+				f.selfCalls[sel.Sel.Name] = true
+			}
+			// vm.parser.Clone() / vm.parser.Parse…(…)
+			if isRecvParser(sel.X, recv) && (sel.Sel.Name == "Clone" || strings.HasPrefix(sel.Sel.Name, "Parse")) {
+				f.ownParser = true
+			}
+		}
+		// vm.parser (or a clone of it) handed to a call: LoadClass(pkg, vm.parser), parseFileOn(vm, vm.parser.Clone(), …)
+		for _, a := range call.Args {
+			if mentionsRecvParser(a, recv) {
+				f.ownParser = true
+			}
 		}
 		return true
 	})
@@ -249,6 +366,7 @@ func main() {
 	}
 	sort.Strings(names)
 	seen := map[string]bool{}
+	var vmFacts []*vmFact
 	for _, n := range names {
 		for _, d := range files[n].Decls {
 			fd, ok := d.(*ast.FuncDecl)
@@ -262,6 +380,10 @@ func main() {
 				continue
 			}
 			if len(fd.Recv.List) == 0 {
+				continue
+			}
+			if strings.TrimPrefix(ex.TypeString(fd.Recv.List[0].Type), "*") == "VM" {
+				vmFacts = append(vmFacts, analyseVM(fd))
 				continue
 			}
 			if strings.TrimPrefix(ex.TypeString(fd.Recv.List[0].Type), "*") != "TempVM" {
@@ -290,15 +412,58 @@ func main() {
 		if f.ownLoader {
 			own = "true"
 		}
-		fmt.Fprintf(&sb, "  { method := %s, writesLocal := %s, writesBase := %s,\n    baseCalls := %s, selfCalls := %s, ownLoader := %s, shapeChanged := %s }",
+		sets := "false"
+		if f.setsParser {
+			sets = "true"
+		}
+		fmt.Fprintf(&sb, "  { method := %s, writesLocal := %s, writesBase := %s,\n    baseCalls := %s, selfCalls := %s, ownLoader := %s, shapeChanged := %s,\n    baseParser := %s, parses := %s, evalCtx := %s, setsParser := %s }",
 			ex.LeanString(f.method), leanList(sorted(f.writesLocal)), leanList(sorted(f.writesBase)),
-			leanList(sorted(f.baseCalls)), leanList(sorted(f.selfCalls)), own, shape)
+			leanList(sorted(f.baseCalls)), leanList(sorted(f.selfCalls)), own, shape,
+			leanList(sorted(f.baseParser)), leanList(sorted(f.parses)), leanList(sorted(f.evalCtx)), sets)
 		if i+1 < len(facts) {
 			sb.WriteString(",")
 		}
 		sb.WriteString("\n")
 	}
-	sb.WriteString("]\n\nend Generated.C12TempVm\n")
+	sb.WriteString("]\n\n")
+	sort.Slice(vmFacts, func(i, j int) bool { return vmFacts[i].method < vmFacts[j].method })
+	sb.WriteString("/-- every method of `runtime.VM` (the base): does it parse / autoload with the base-bound parser `vm.parser`, which of its own methods does it call -/\n")
+	sb.WriteString("def vmFacts : List VmFact := [\n")
+	for i, f := range vmFacts {
+		own := "false"
+		if f.ownParser {
+			own = "true"
+		}
+		fmt.Fprintf(&sb, "  { method := %s, ownParser := %s, selfCalls := %s }", ex.LeanString(f.method), own, leanList(sorted(f.selfCalls)))
+		if i+1 < len(vmFacts) {
+			sb.WriteString(",")
+		}
+		sb.WriteString("\n")
+	}
+	sb.WriteString("]\n\n")
+	// least set closed under "uses vm.parser itself or calls a member on itself"
+	parsing := map[string]bool{}
+	for changed := true; changed; {
+		changed = false
+		for _, f := range vmFacts {
+			if parsing[f.method] {
+				continue
+			}
+			hit := f.ownParser
+			for c := range f.selfCalls {
+				if parsing[c] {
+					hit = true
+				}
+			}
+			if hit {
+				parsing[f.method] = true
+				changed = true
+			}
+		}
+	}
+	sb.WriteString("/-- the methods of the base that parse / autoload with `vm.parser`, directly or through their own methods (checked to be closed by `ParsersBound`) -/\n")
+	fmt.Fprintf(&sb, "def vmParsing : List String := %s\n", leanList(sorted(parsing)))
+	sb.WriteString("\nend Generated.C12TempVm\n")
 	if err := ex.WriteIfChanged(a.Out, "C12TempVm.lean", sb.String()); err != nil {
 		fmt.Fprintln(os.Stderr, err)
 		os.Exit(1)
@@ -309,6 +474,6 @@ func main() {
 			nshape++
 		}
 	}
-	fmt.Printf("C12TempVm.lean: %d TempVM methods, %d shapeChanged\n", len(facts), nshape)
+	fmt.Printf("C12TempVm.lean: %d TempVM methods, %d VM methods, %d shapeChanged\n", len(facts), len(vmFacts), nshape)
 	_ = token.NoPos
 }
